@@ -17,6 +17,11 @@ func init() {
 			ruleXZReaderChecks(c, r, "")
 			// the per-block check the reader compares is the little-endian digest of the specification
 			ruleCheckEncoding(c, r, "")
+			ruleWriterTo(c, r, "")
+			// members of a chain share nothing but the source: no package-level state in the reader
+			ruleGlobals(c, r, "")
+			ruleNondeterminism(c, r, "")
+			ruleAllZeros(c, r, "")
 			{
 				t := getChunkTables(c, r, "")
 				ruleStartChunkEffects(c, r, t, "")
